@@ -2026,8 +2026,11 @@ m("C17", "meta-one-order-only", "utils.py",
     _META_CONTENT + r'\\s+' + _META_HTTP_EQUIV +''',
   '''    _META_HTTP_EQUIV + r'\\s+' + _META_CONTENT +''')
 m("C06", "hex-marker-lowercase-only", "utils.py",
-  "entity_re = re.compile(r'&(#?)([xX]?)(\\d{1,5}|\\w{1,8});')",
-  "entity_re = re.compile(r'&(#?)(x?)(\\d{1,5}|\\w{1,8});')")
+  "entity_re = re.compile(r'&(?:(#)([xX]?))?(\\d{1,5}|\\w{1,8});')",
+  "entity_re = re.compile(r'&(?:(#)(x?))?(\\d{1,5}|\\w{1,8});')")
+m("C06", "hex-marker-without-hash", "utils.py",
+  "entity_re = re.compile(r'&(?:(#)([xX]?))?(\\d{1,5}|\\w{1,8});')",
+  "entity_re = re.compile(r'&(#?)([xX]?)(\\d{1,5}|\\w{1,8});')")
 m("C06", "apos-not-decoded", "utils.py",
   "        cp = n2cp.get(ent) or (39 if ent == 'apos' else None)",
   "        cp = n2cp.get(ent)")
